@@ -1,9 +1,13 @@
 #!/bin/sh
-# runs every claimed check (quick tier) on the current /repo; refreshes evidence/*.json
+# runs every claimed check (quick tier by default) on the current /repo; refreshes evidence/*.json.
+# Prints the summary line of every check and every VIOLATION line; exit 1 if any check exits non-zero.
 cd "$(dirname "$0")"
 rc=0
 for p in $(python3 -c "from props import PROPS; print(' '.join(sorted(PROPS)))"); do
-  ./check $p --tier ${1:-quick} | tail -1
-  [ $? -ne 0 ] && rc=1
+  out=$(./check $p --tier ${1:-quick} 2>&1); c=$?
+  echo "$out" | grep -E "^VIOLATION" | head -5
+  echo "$out" | tail -1
+  if [ $c -ne 0 ]; then rc=1; echo "FAILED: $p exit=$c"; fi
 done
+[ $rc -eq 0 ] && echo "ALL CHECKS PASSED" || echo "SOME CHECKS FAILED"
 exit $rc
